@@ -143,6 +143,12 @@ pub enum ApiOp {
     AddStrAt(usize, String),
     /// `add_file(base, <path outside base>)`: the module file k copied to a sibling directory.
     AddFileOutside(usize),
+    /// `add_item` with a hand-made, already resolved item at `path` (split at "::").
+    AddItem {
+        path: String,
+        size: usize,
+        alignment: usize,
+    },
 }
 
 #[derive(Clone, Debug, PartialEq, Eq, Serialize, Deserialize)]
@@ -451,6 +457,26 @@ fn drive(
             ApiOp::AddStrAt(i, at) => {
                 let Some((rel, content)) = files.get(*i) else { continue };
                 add_str(&mut state, rel, content, Some(at))?;
+            }
+            ApiOp::AddItem {
+                path,
+                size,
+                alignment,
+            } => {
+                use pyxis::semantic::types::{
+                    ItemCategory, ItemDefinition, ItemState, ItemStateResolved, TypeDefinition,
+                    Visibility,
+                };
+                state.add_item(ItemDefinition {
+                    visibility: Visibility::Public,
+                    path: item_path_from_str(path),
+                    state: ItemState::Resolved(ItemStateResolved {
+                        size: *size,
+                        alignment: *alignment,
+                        inner: TypeDefinition::default().into(),
+                    }),
+                    category: ItemCategory::Defined,
+                })?;
             }
             ApiOp::AddFileOutside(i) => {
                 let Some((rel, content)) = files.get(*i) else { continue };
